@@ -227,6 +227,8 @@ func (e StdEng) reduce(
 
 		retVal = a
 		dimsReduced := 0
+		// sort a copy: `along` belongs to the caller
+		along = append([]int(nil), along...)
 		sort.Slice(along, func(i, j int) bool { return along[i] < along[j] })
 
 		for _, axis := range along {
